@@ -4,6 +4,8 @@ pub mod c01;
 pub mod c02;
 pub mod c14;
 pub mod c15;
+pub mod c30;
+pub mod c31;
 pub mod c40;
 
 pub type RunFn = fn(&mut Report);
@@ -13,6 +15,8 @@ pub const REGISTRY: &[(&str, RunFn)] = &[
     ("C02", c02::run),
     ("C14", c14::run),
     ("C15", c15::run),
+    ("C30", c30::run),
+    ("C31", c31::run),
     ("C40", c40::run),
 ];
 
